@@ -48,7 +48,9 @@ func main() {
 		panic("usage: genfixtures <addrA> <addrB>")
 	}
 	refs := []string{h("reference-1"), h("reference-2")}
-	links := []string{"ipfs://link-one", "ipfs://link-two"}
+	// link3 / link4 differ only by a trailing separator, link5 is empty: payload strings are built by
+	// joining with ':' and a sound implementation must not confuse them
+	links := []string{"ipfs://link-one", "ipfs://link-two", "urn:c4e:doc:", "urn:c4e:doc", ""}
 	ek, _ := ecdsa.GenerateKey(elliptic.P256(), rand.Reader)
 	ek2, _ := ecdsa.GenerateKey(elliptic.P256(), rand.Reader)
 	rk, _ := rsa.GenerateKey(rand.Reader, 2048)
